@@ -13,7 +13,8 @@ MNext ==
        \/ w \in {1, 2}  /\ \E nn \in {IF Pick(1..3) = 1 THEN n ELSE b} :
                              Step(RegisterCoinEff(b, nn), "RegisterCoin", RegisterCoinOK(b, nn), [base |-> b, name |-> nn])
        \/ w \in {3, 4}  /\ \E cc \in {IF DOMAIN byErc20 # {} /\ Pick(1..4) # 1 THEN Pick(DOMAIN byErc20) ELSE c} :
-                           Step(AddCoinEff(b, b, cc), "AddCoin", AddCoinOK(b, b, cc), [base |-> b, name |-> b, c |-> cc])
+                           \E nn \in {IF Pick(1..3) = 1 THEN n ELSE b} :
+                           Step(AddCoinEff(b, nn, cc), "AddCoin", AddCoinOK(b, nn, cc), [base |-> b, name |-> nn, c |-> cc])
        \/ w \in {5, 6}  /\ Step(RegisterERC20Eff(c), "RegisterERC20", RegisterERC20OK(c), [c |-> c])
        \/ w = 7         /\ \E t \in {Pick(Contracts \cup Denoms)} : Step(ToggleEff(t), "Toggle", ToggleOK(t), [t |-> t])
        \/ w \in {8, 9}  /\ \E o \in {IF DOMAIN byErc20 # {} /\ Pick(1..4) # 1 THEN Pick(DOMAIN byErc20) ELSE c} :
